@@ -18,7 +18,7 @@ import (
 var asciiNames = []string{
 	"A", "B", "C", "D", "E", "F", "G", "H", "I", "J", "K", "L", "M", "N", "O", "P", "Q",
 	"a", "b", "c", "d", "e", "f", "g", "h", "i", "uni0041", "f_i", "a.sc", "one", "two", "x", "y", "dx",
-	"_", "to", "mark", "base", "first", "second", "class", "GSUB1", "GPOS1", "marks", "ligs", ".null",
+	"_", "to", "mark", "base", "first", "second", "klass", "GSUB1", "GPOS1", "marks", "ligs", ".null",
 	"A1", "A2", "_a", "..", "f_f_i", "zero.alt",
 }
 
@@ -498,7 +498,7 @@ func (g *textGen) classDefs(kw string, lo, hi int) []string {
 	for _, set := range sets {
 		nm := fmt.Sprintf("c%d", len(names)+1)
 		if g.r.Chance(1, 4) {
-			nm = vlib.Pick(g.r, []string{"alpha", "x", "class", "A"}) + nm
+			nm = vlib.Pick(g.r, []string{"alpha", "x", "class", "A"}) + nm // class names, not glyph names
 		}
 		names = append(names, nm)
 		g.w(kw + " :" + nm + ":")
